@@ -12,6 +12,7 @@ ROOT = os.path.dirname(os.path.dirname(os.path.abspath(__file__)))
 
 
 FRAME_CHECK = True
+UNIT_BUDGET = [float(os.environ.get("PYVC_UNIT_BUDGET", "240"))]
 
 
 class UnitResult:
@@ -50,6 +51,7 @@ def _run_one(job):
 
         for k in smt.STATS:
             smt.STATS[k] = 0
+        smt.DEADLINE[0] = t0 + UNIT_BUDGET[0]
         from pyvc import frame
 
         fp0 = frame.fingerprint() if FRAME_CHECK else None
